@@ -62,8 +62,13 @@ class SimSocket:
     """
 
     def __init__(self, clock, log, stream=b'', inbound=(), close_gap=0.0, recv_split=(0,),
-                 sndbuf=1 << 30, drains=(), send_split=(0,), call_cap=1 << 60):
+                 sndbuf=1 << 30, drains=(), send_split=(0,), call_cap=1 << 60,
+                 recv_errors=(), send_errors=()):
         self.call_cap = call_cap
+        # transient socket errors: {call index: errno}; the call raises OSError once, nothing is consumed
+        self.recv_errors = {int(i): int(e) for i, e in recv_errors}
+        self.send_errors = {int(i): int(e) for i, e in send_errors}
+        self.errors_raised = 0
         self.clock = clock
         self.log = log
         self._timeout = None
@@ -172,6 +177,11 @@ class SimSocket:
             raise StepCapExceeded('recv')
         if n <= 0:
             raise ValueError('simnet: recv(%r)' % n)
+        e = self.recv_errors.pop(self.recv_calls, None)
+        if e is not None:
+            self.errors_raised += 1
+            self.log.add('recv', n, 'errno', e)
+            raise OSError(e, 'simulated transient socket error')
         self._pump()
         while not self.inq and not self.peer_closed:
             r = self._block_until(self.next_inbound_event())
@@ -202,6 +212,11 @@ class SimSocket:
         if self.send_calls > self.call_cap:
             raise StepCapExceeded('send')
         data = bytes(data)
+        e = self.send_errors.pop(self.send_calls, None)
+        if e is not None:
+            self.errors_raised += 1
+            self.log.add('send', len(data), 'errno', e)
+            raise OSError(e, 'simulated transient socket error')
         self._pump()
         if not data:
             self.log.add('send', 0, 0)
